@@ -1090,6 +1090,7 @@ func (vm *VirtualMachine) Clone() (*VirtualMachine, error) {
 		modules:      modules,
 		loadedCode:   loadedCode,
 		concAllowed:  vm.concAllowed,
+		halt:         vm.halt,
 	}
 
 	// Only activate main code if it exists
